@@ -35,6 +35,7 @@ fn replay_line(s: &mut Summary, v: &V) {
         "Split" => m_split::replay(s, v),
         "ParseInt" => m_parseint::replay(s, v),
         "CStr" => m_cstr::replay(s, v),
+        "Utf8Check" => m_cstr::replay_utf8(s, v),
         "Ownership" => m_ownership::replay(s, v),
         "Mem" => m_mem::replay(s, v),
         m => panic!("kh: unknown module {m}"),
